@@ -173,3 +173,23 @@ def reportLoss (s : StatsOut) : Nat × Nat :=
   (totalLost, fractionLost)
 
 end Galene.Loss
+
+namespace Galene.Loss
+
+/-- `nackWriter` (rtpconn/rtpwriter.go:313-368): which buffered subscriber NACKs are
+shipped upstream.  `kf` = `cache.Keyframe()`, `last` = `cache.Last()`, `inCache n` =
+`cache.Get(n, nil) > 0`.  Returns the seqnos sent, in the order sent. -/
+def nackWriter (kf last : Option Nat) (inCache : Nat → Bool) (nacks : List Nat) : List Nat :=
+  match last with
+  | none => []
+  | some l =>
+    let cutoff := match kf with
+      | some k => k
+      | none => sub16 l 256
+    let kept := nacks.filter (fun n => sub16 n cutoff < 32768 && sub16 l n < 32768 && !inCache n)
+    -- sort.Slice by (n - cutoff); insertion sort is enough for the model
+    kept.foldl (fun acc n =>
+      let (a, b) := acc.span (fun m => sub16 m cutoff ≤ sub16 n cutoff)
+      a ++ n :: b) []
+
+end Galene.Loss
